@@ -1986,6 +1986,11 @@ func (c *Cache) additionalAnswer(ctx context.Context, msg *dns.Msg) *dns.Msg {
 			middleware.PropagateValidatedDenialResponse(ctx, respCname, msg)
 			// The outer response is now this denial, proof and all.
 			lineage.inherit()
+			// …and lives no longer than the denial itself would. One that
+			// brings no record at all (no SOA, hence no negative TTL) is kept
+			// for the floor only; without this the alias adopted its rcode
+			// for the whole TTL of the CNAME and was never chased again.
+			boundRequestTo(ctx, time.Now().Add(dnsutil.CalculateCacheTTL(respCname, dnsutil.TypeNXDomain)))
 			return msg
 		}
 		if respCname != nil && respCname.Rcode != dns.RcodeSuccess && respCname.Rcode != dns.RcodeNameError {
